@@ -625,31 +625,36 @@ func queries64(t *rapid.T, x *m64, fail func(string, ...interface{})) {
 		}
 		mpos += want
 	}
-	i := uint64(0)
-	for v := range roaring64.Values(b) {
-		if i >= take {
-			break
+	// a sequence value may be ranged over more than once (each time from the start), also after an early break
+	vseq, bseq := roaring64.Values(b), roaring64.Backward(b)
+	for pass := 0; pass < 2; pass++ {
+		i := uint64(0)
+		for v := range vseq {
+			if i >= take {
+				break
+			}
+			if w, _ := m.Select(i); v != w {
+				fail("#%d Values (traversal %d of the same sequence) item %d = %d want %d", x.id, pass+1, i, v, w)
+			}
+			i++
 		}
-		if w, _ := m.Select(i); v != w {
-			fail("#%d Values item %d = %d want %d", x.id, i, v, w)
+		if i != min64(take, n) {
+			fail("#%d Values (traversal %d of the same sequence) yielded %d items want %d", x.id, pass+1, i, min64(take, n))
 		}
-		i++
-	}
-	if i != min64(take, n) {
-		fail("#%d Values yielded %d items want %d", x.id, i, min64(take, n))
-	}
-	i = 0
-	for v := range roaring64.Backward(b) {
-		if i >= take {
-			break
+		i = 0
+		for v := range bseq {
+			if i >= take {
+				break
+			}
+			if w, _ := m.Select(n - 1 - i); v != w {
+				fail("#%d Backward (traversal %d of the same sequence) item %d = %d want %d", x.id, pass+1, i, v, w)
+			}
+			i++
 		}
-		if w, _ := m.Select(n - 1 - i); v != w {
-			fail("#%d Backward item %d = %d want %d", x.id, i, v, w)
+		if i != min64(take, n) {
+			fail("#%d Backward (traversal %d of the same sequence) yielded %d items want %d", x.id, pass+1, i, min64(take, n))
 		}
-		i++
-	}
-	if i != min64(take, n) {
-		fail("#%d Backward yielded %d items want %d", x.id, i, min64(take, n))
+		take = take/2 + 1
 	}
 }
 
